@@ -43,6 +43,9 @@
 extern uint8_t naken_asm_verif_pass;
 extern uint32_t naken_asm_verif_stale_count;
 extern uint32_t naken_asm_verif_stale_first;
+// How often pass 2 wrote a byte it had already written (the program
+// assembles over addresses it has assembled before).
+extern uint32_t naken_asm_verif_rewritten_count;
 #endif
 
 class MemoryPage
@@ -76,6 +79,11 @@ public:
 
     bin[offset] = data;
 #ifdef NAKEN_ASM_VERIF
+    if (naken_asm_verif_pass == 2 && verif_pass[offset] == 2)
+    {
+      naken_asm_verif_rewritten_count++;
+    }
+
     verif_pass[offset] = naken_asm_verif_pass;
 #endif
   }
